@@ -97,3 +97,12 @@ P("C03", "mirfacts+srcfacts+rules",
   "limit, the exclusion evaluated on the path below the project root, and parse errors skipped; per-file results are appended with no "
   "skipping branch; every control path of both wrapper templates has exactly one exported function and one invoke('{{ command.name }}').",
   "name collisions between user commands are not decided; syn/walkdir behave as documented", b=True)
+
+P("C05", "srcfacts+mirfacts+rules",
+  "static analysis: literal-table comparison (TABLE), recogniser prefix/offset pairing, string-shape extraction of the visitors' format strings (SV) with shape classification and pairwise operator-precedence check (SHAPE), splitter discipline (SIBLING), provenance of every TypeStructure/type text (CALLS over MIR)",
+  "Because parsing and rendering are compositional (one recogniser and one format string per constructor), the finite checks cover every "
+  "nesting depth by induction: the primitive table equals the documented 19 rows; each recogniser's slice offset equals its prefix length "
+  "and is wired to the documented constructor; each constructor renders with the documented shape in both TypeScript-type renderers; for all "
+  "(outer hole, inner constructor) pairs the operand's binding class fits (finite 8×8 per renderer); type-argument lists are split only by "
+  "the bracket-depth-aware splitter; all five sites go through parse_type_structure and a visitor entry.",
+  "the README/statement table is the oracle for serde's JSON shapes; TypeScript's `[]`-over-`|` precedence", a=True, b=True)
